@@ -148,6 +148,13 @@ func (t *TTY) Close() error {
 	return nil
 }
 
+// Closes reports how many times Close was called.
+func (t *TTY) Closes() int {
+	t.mu.Lock()
+	defer t.mu.Unlock()
+	return t.CloseCalls
+}
+
 // Reopen clears the closed flag (the same console object is reused by
 // Resume in the WithConsole configuration).
 func (t *TTY) Reopen() {
